@@ -75,6 +75,19 @@ CLAIMS['C08'] = dict(
          'exception return. The trace-level statement (next 1-4 instructions conditional) is implied, not decided.',
     note='Trusted: CPython ast; sa/refmodel.py; spec/enc_t16.json.')
 
+CLAIMS['C10'] = dict(
+    category='proof', design_ref='DESIGN.md section 4 (C10), 2.4',
+    technique='interval / bit-width abstract interpretation of every value reaching a register sink (helpers analysed '
+              'from source, modular contracts for ArmV6/Registers methods) + exact banking tables by bit-vector abstract '
+              'interpretation + AST ownership rule',
+    text='Inductive range invariant: every value stored to a register, banked register, SPSR, ELR_hyp or the PC by any of '
+         'the 273 execute() bodies or any ArmV6/Registers method is proved to lie in [0, 2^32) (unknown counts as a '
+         'violation); the banking map and SPSR selection equal the architectural tables for every register x legal mode; '
+         'the bank storage is touched only through that map; exception entry and the user-bank LDM/STM forms write exactly '
+         'the architectural bank. By induction over single accesses this gives the all-sequences clause.',
+    note='Trusted: CPython ast; the hypotheses listed in the evidence (registers/system registers read in range, memory '
+         'reads of size s below 2^(8s), mock hooks deliver 32-bit words); field ranges from the decode layer.')
+
 PENDING = 'checker not armed yet in this session (under construction); nothing is claimed for it until its rules run clean'
 
 checks = []
